@@ -280,7 +280,7 @@ def main(prop, tier, seed, replay_path=None):
         raise MachineryError("C05 self-test: shifted reference accepted")
     rc, n_unlisted, known = verdict.finish()
     distinct = {(c["kind"], c["j"], c["q"], c["l"], c["p"]) for c in cases}
-    cov = {"states": 1, "transitions": 1, "traces_validated_against_impl": n_eval + n_pre,
+    cov = {"states": int(max(1, r.distinct)), "transitions": int(max(1, r.generated)), "traces_validated_against_impl": n_eval + n_pre,
            "samples": [cases[0], cases[len(cases) // 2]],
            "evaluations": n_eval + n_pre, "distinct_nontrivial": len(distinct),
            "rule": "cases = (beta in eighths, log q, log L, log pi, log-Jacobian incl. -inf / NaN) enumerated by TLC from Target.tla with the exact expected value, evaluated through each sampler class's log_prob in the listed namespaces/widths; distinct = distinct (kind, beta, q, L, pi) tuples; plus the pre-image clause on 7 real transform configurations",
